@@ -126,6 +126,46 @@ def ctor_rules(cname, cls, scope):
     return out
 
 
+def ctor_store_rules(cname, cls):
+    """The guards in serialize test the stored field (`data._x is None`, `len(data._x)`): the constructor has to store
+    what it was given -- the parameter itself, or tuple(parameter) for arrays -- and may at most keep None as None.
+    A conversion (bool(x), int(x), str(x), x or default) makes an absent or ill-typed argument look valid."""
+    out = []
+    facts = init_facts(cls)
+    if facts is None:
+        return out
+    init, params, assigns = facts
+
+    def plain(e, p):
+        if isinstance(e, ast.Name) and e.id == p:
+            return True
+        return isinstance(e, ast.Call) and isinstance(e.func, ast.Name) and e.func.id == "tuple" and len(e.args) == 1 and not e.keywords \
+            and isinstance(e.args[0], ast.Name) and e.args[0].id == p
+
+    def is_none_test(t, p):
+        return isinstance(t, ast.Compare) and len(t.ops) == 1 and isinstance(t.left, ast.Name) and t.left.id == p \
+            and isinstance(t.comparators[0], ast.Constant) and t.comparators[0].value is None
+
+    for attr, val, st in assigns:
+        if attr is None or not attr.startswith("_"):
+            continue
+        p = attr[1:]
+        if p not in params:
+            continue  # derived (length fields) or constant (hardcoded values, byte_size)
+        used = {n.id for n in ast.walk(val) if isinstance(n, ast.Name)}
+        if p not in used:
+            continue  # hardcoded literal
+        ok = plain(val, p)
+        if not ok and isinstance(val, ast.IfExp) and is_none_test(val.test, p):
+            is_ = isinstance(val.test.ops[0], ast.Is)
+            none_arm, other = (val.body, val.orelse) if is_ else (val.orelse, val.body)
+            ok = isinstance(none_arm, ast.Constant) and none_arm.value is None and plain(other, p)
+        if not ok:
+            out.append(("ctor", cname, "[ctor-alters-argument] __init__ stores %s for parameter %s: the guards of serialize() see the "
+                        "converted value, not what the caller passed" % (ast.unparse(val)[:60], p)))
+    return out
+
+
 def _is_len_of(v, attr):
     def direct(e):
         return isinstance(e, ast.Call) and isinstance(e.func, ast.Name) and e.func.id == "len" and len(e.args) == 1 and skel.is_attr(e.args[0], "self", attr)
